@@ -142,7 +142,7 @@ func c11CharDriver() func(c *explore.Chooser) *c11Case {
 // driver 3: hole placements
 func c11HoleDriver() func(c *explore.Chooser) *c11Case {
 	holes := []string{"{x}", "{s}", "{b}"}
-	texts := []string{"", "a", "%", "100% ", "\\{", "\\}", "%d", "%s", "%%", " ", "é", "$", "\\n", "\"q\""}
+	texts := []string{"", "a", "%", "100% ", "\\{", "\\}", "%d", "%s", "%%", " ", "é", "$", "\\n", "\"q\"", "\\\\", "C:\\\\", "\\t"}
 	return func(c *explore.Chooser) *c11Case {
 		form := 2 + c.Choose(2)
 		nh := 1 + c.Choose(2)
